@@ -1,48 +1,11 @@
 (* Reusable facts for the bank / deposit / minimum-deposit invariants:
-   sdk.Dec truncation bounds, the "core" of a state (bank, supply, bindings, pricing)
+   getMinDeposit, the "core" of a state (bank, supply, bindings, pricing)
    and what every helper does to it, exact characterisation of slash. *)
 From Coq Require Import List ZArith Bool Lia.
 From SVC Require Import Base.AMap Base.Res Base.Dec Model.Types Model.Pricing
-  Model.Handlers Model.EndBlock Model.Step Proofs.Inv Proofs.Lemmas.
+  Model.Handlers Model.EndBlock Model.Step Proofs.Inv Proofs.Lemmas Proofs.DecProofs.
 Import ListNotations.
 Open Scope Z_scope.
-
-(* ------------------------------------------------------------------ *)
-(* sdk.Dec: n * r truncated *)
-
-Lemma PREC_pos : 0 < PREC.
-Proof. reflexivity. Qed.
-
-Lemma mul_trunc_eq n r : 0 <= n -> 0 <= r -> mul_trunc n r = n * r / PREC.
-Proof.
-  intros Hn Hr. pose proof PREC_pos as HP.
-  unfold mul_trunc, dtrunc, dmul, dec_of_int, chop_round.
-  replace (n * PREC * r) with (n * r * PREC) by ring.
-  assert (H0 : 0 <= n * r) by nia.
-  assert (H1 : 0 <= n * r * PREC) by nia.
-  destruct (n * r * PREC <? 0) eqn:E; [apply Z.ltb_lt in E; lia|].
-  unfold chop_round_nn.
-  rewrite Z.mod_mul, Z.div_mul by lia. cbn [Z.eqb].
-  apply Z.quot_div_nonneg; lia.
-Qed.
-
-Lemma mul_trunc_bounds n r : 0 <= n -> 0 <= r <= ONE -> 0 <= mul_trunc n r <= n.
-Proof.
-  intros Hn [Hr0 Hr1]. rewrite mul_trunc_eq by assumption.
-  unfold ONE in Hr1. pose proof PREC_pos as HP.
-  split.
-  - apply Z.div_pos; nia.
-  - apply Z.div_le_upper_bound; nia.
-Qed.
-
-Lemma mul_trunc_0_r n : 0 <= n -> mul_trunc n 0 = 0.
-Proof. intros Hn. rewrite mul_trunc_eq by lia. rewrite Z.mul_0_r. reflexivity. Qed.
-
-Lemma mul_trunc_ONE n : 0 <= n -> mul_trunc n ONE = n.
-Proof.
-  intros Hn. rewrite mul_trunc_eq by (unfold ONE, PREC; lia).
-  unfold ONE. apply Z.div_mul. pose proof PREC_pos. lia.
-Qed.
 
 (* ------------------------------------------------------------------ *)
 (* getMinDeposit *)
